@@ -1,9 +1,9 @@
 SPECIFICATION Spec
 CONSTANTS
-  TN = {"a", "b"}
+  TN = {"a", "b", "c"}
   AN = {"x"}
-  RN = {"r", "s"}
-  MaxTypes = 2
+  RN = {}
+  MaxTypes = 3
 VIEW View
 INVARIANTS InvWellFormed InvLookups CoherentAfterTwoWay
 PROPERTIES ErrLeavesUnchanged RemoveAbsentIsNoop TwoWayPost
